@@ -61,20 +61,25 @@ inductive PushErr
   | ctxFull             -- Bug(ReceiptsCtxFull) (an interpreter error, not a panic)
   deriving DecidableEq, Repr, Inhabited
 
+/-- `ReceiptsCtx`. The `Vec<Receipt>` is kept newest-first with its length cached (`Vec::len` is O(1)),
+    so that the compiled driver replays 65,535-receipt runs in linear time; `receipts` is the push order. -/
 structure RCtx where
-  receipts : List Rcpt      -- in push order
+  recs : List Rcpt          -- newest first
+  n : Nat                   -- `receipts.len()`
   tree : List Node
   deriving DecidableEq, Repr, Inhabited
 
-def RCtx.empty : RCtx := ⟨[], []⟩
+/-- the receipts in push order -/
+def RCtx.receipts (c : RCtx) : List Rcpt := c.recs.reverse
+
+def RCtx.empty : RCtx := ⟨[], 0, []⟩
 
 /-- `ReceiptsCtx::push` -/
 def RCtx.push (H : Bytes → Bytes) (c : RCtx) (r : Rcpt) : Except PushErr RCtx :=
-  let n := c.receipts.length
-  if n = maxReceipts then .error .ctxFull
-  else if (n = maxReceipts - 1 ∧ r.kind ≠ .scriptResult) ∨
-          (n = maxReceipts - 2 ∧ r.kind ≠ .scriptResult ∧ r.kind ≠ .panic) then .error .tooManyReceipts
-  else .ok ⟨c.receipts ++ [r], calcPush H c.tree r.enc⟩
+  if c.n = maxReceipts then .error .ctxFull
+  else if (c.n = maxReceipts - 1 ∧ r.kind ≠ .scriptResult) ∨
+          (c.n = maxReceipts - 2 ∧ r.kind ≠ .scriptResult ∧ r.kind ≠ .panic) then .error .tooManyReceipts
+  else .ok ⟨r :: c.recs, c.n + 1, calcPush H c.tree r.enc⟩
 
 /-- `ReceiptsCtx::root` -/
 def RCtx.root (H : Bytes → Bytes) (c : RCtx) : Bytes := calcRoot H c.tree
